@@ -253,6 +253,13 @@ func start1(c Conf, root string) (*Server, error) {
 			time.Sleep(10 * time.Millisecond)
 		}
 	}
+	// a dial can also be answered by a sibling child's server that was handed the same port in the
+	// instant between FreePorts and lal's own bind: then lal's bind failed and RunLoop is returning
+	select {
+	case err := <-s.done:
+		return nil, fmt.Errorf("RunLoop returned early: %v", err)
+	case <-time.After(15 * time.Millisecond):
+	}
 	return s, nil
 }
 
